@@ -65,6 +65,21 @@ func streamH(line string) string {
 			if strings.TrimLeft(t, " \t") == "\n" && len(cmds) != 0 {
 				return "FAIL:blank-line-not-empty" + tag
 			}
+			if kind == "c" && rs.hi <= len(all) {
+				// prefix locality (Lex/Eff.v prefix_locality): nothing beyond the inspected prefix matters.
+				start := off - len(t)
+				for _, garbage := range []string{"", "\n", ") ) 'x", "fi done esac }"} {
+					rs2 := &runeScanner{s: all[start:rs.hi] + garbage, prev: -1, failAt: -1}
+					c2, m2, e2 := parser.ParseCommands(nil, "t", rs2)
+					if e2 != nil || skCmds(c2) != skCmds(cmds) || len(m2) != len(comments) || rs2.off != len(t) {
+						return "FAIL:depends-on-text-beyond-inspected-prefix" + tag + ":hi=" + strconv.Itoa(rs.hi-start)
+					}
+				}
+				// no over-consumption: what was inspected beyond the command is at most its look-ahead
+				if rs.hi-off > 4 {
+					return "FAIL:inspected-far-beyond-the-command" + tag + ":" + strconv.Itoa(rs.hi-off)
+				}
+			}
 		}
 	}
 	return "ok n=" + strconv.Itoa(len(texts))
